@@ -179,12 +179,14 @@ template<class T, multi::dimensionality_type D, class A> struct is_owning<multi:
 // value category used for the call
 enum Cat { CAT_LVALUE, CAT_RVALUE, CAT_CONST };
 
-template<class Fin, bool Based = false, int MaxD = 5>
+template<class Fin, bool Based = false, int MaxD = 5, bool KeepD = false>
 struct Interp {
 	Input const& in;
 	Ctx& ctx;
 	Fin& fin;
 	int k = 0;          // next op record
+	int kend = -1;      // one past the last record to use (-1: all)
+	int nrec() const { return kend >= 0 ? std::min(kend, in.nops()) : in.nops(); }
 	int applied = 0, layout_changing = 0;
 	bool null_root = false;  // the root owns no storage (data pointer may be null): the library asserts that a null pointer is never offset,
 	                         // so views of such roots are sliced/dropped at offset 0 only (array_ref.hpp sliced_aux_: "it is UB to offset a nullptr")
@@ -211,7 +213,7 @@ struct Interp {
 	void step(V& v, Model m) {
 		constexpr int D = rank_of<V>;
 		constexpr bool is_const_v = std::is_const_v<V>;
-		while(k < in.nops()) {
+		while(k < nrec()) {
 			int const kk = k++;
 			unsigned const code = in.op(kk, 0) % (Based ? static_cast<unsigned>(NOPS) : static_cast<unsigned>(OP_REINDEXED));
 			unsigned const a = in.op(kk, 1), b = in.op(kk, 2), c = in.op(kk, 3);
@@ -227,7 +229,7 @@ struct Interp {
 				switch(code) { case OP_ROTATED: case OP_UNROTATED: case OP_TRANSPOSED: case OP_TILDE: case OP_REVERSED: case OP_PAREN0: break; default: ctx.count("ops_skipped_based_null_root"); continue; }
 			}
 			switch(code) {
-			case OP_INDEX: if constexpr(D >= 2) { if(d0.size >= 1) {
+			case OP_INDEX: if constexpr(D >= 2 && !KeepD) { if(d0.size >= 1) {
 				long o = (null_root && !known_mode()) ? 0 : a % d0.size;
 				m2.offset += o*d0.stride; m2.d.erase(m2.d.begin());
 				tag("["); t << (d0.first + o) << "]";
@@ -322,7 +324,7 @@ struct Interp {
 				if(D > 1) { ++layout_changing; }
 				apply<(D == 1) || VP_CONST_REVERSED>(v, cat, m2, "reversed", [&](auto&& x) -> decltype(auto) { return std::forward<decltype(x)>(x).reversed(); }); return;
 			} else { ctx.count("ops_excluded_const_overload"); } break;
-			case OP_DIAGONAL: if constexpr(D >= 2) {
+			case OP_DIAGONAL: if constexpr(D >= 2 && !KeepD) {
 				if(Based && (m.d[0].first != 0 || m.d[1].first != 0)) { ctx.count("ops_skipped_diagonal_based"); break; }  // diagonal() slices with literal {0,n}: zero-based views only
 				if(Based && null_root && !known_mode()) { break; }  // (internally slices a null-based view whose hidden offset is non-zero)
 				Dim const d1 = m.d[1];
@@ -332,7 +334,7 @@ struct Interp {
 				++layout_changing;
 				apply<true>(v, cat, m2, "diagonal", [&](auto&& x) -> decltype(auto) { return std::forward<decltype(x)>(x).diagonal(); }); return;
 			} break;
-			case OP_PARTITIONED: case OP_CHUNKED: if constexpr(D < MaxD) {
+			case OP_PARTITIONED: case OP_CHUNKED: if constexpr(D < MaxD && !KeepD) {
 				if(d0.size < 1) { break; }
 				auto dv = divisors(d0.size); long n = dv[a % dv.size()];  // number of parts
 				m2.d[0] = Dim{d0.first, d0.size / n, d0.stride};
@@ -345,7 +347,7 @@ struct Interp {
 				tag("chunked("); t << (d0.size / n) << ')';
 				apply<true>(v, cat, m2, "chunked", [&](auto&& x) -> decltype(auto) { return std::forward<decltype(x)>(x).chunked(d0.size / n); }); return;
 			} break;
-			case OP_FLATTED: if constexpr(D >= 2) {
+			case OP_FLATTED: if constexpr(D >= 2 && !KeepD) {
 				Dim const d1 = m.d[1];
 				if(!(d0.size <= 1 || d0.stride == d1.size*d1.stride)) { ctx.count("skipped_not_flattable"); break; }
 				if(m.empty()) { break; }  // the shape of an empty flattened view is not documented
@@ -393,6 +395,7 @@ struct Interp {
 		for(int j = 0; j < n; ++j) {
 			Dim const dj = m.d[static_cast<std::size_t>(j)];
 			int kd = static_cast<int>((kinds >> (2*j)) & 3U);
+			if(KeepD && kd == 0) { kd = 2; }
 			if(kd == 0 && (D - (n - kept) < 0)) { kd = 1; }
 			if(kd == 0 && j == n - 1 && kept == 0 && n == D) { kd = 1; }  // keep at least one dimension: the result is a view
 			unsigned r = (vals >> (5*j)) & 31U;
@@ -420,7 +423,7 @@ struct Interp {
 		if constexpr(J < (D < 3 ? D : 3)) {
 			if(J < n) {
 				switch(kind[J]) {
-					case 0: call_args<J + 1>(v, m2, n, kind, lo, hi, args..., static_cast<multi::index>(lo[J])); return;
+					case 0: if constexpr(!KeepD) { call_args<J + 1>(v, m2, n, kind, lo, hi, args..., static_cast<multi::index>(lo[J])); } return;
 					case 1: call_args<J + 1>(v, m2, n, kind, lo, hi, args..., multi::irange{lo[J], hi[J]}); return;
 					case 2: call_args<J + 1>(v, m2, n, kind, lo, hi, args..., multi::ALL); return;
 					default: call_args<J + 1>(v, m2, n, kind, lo, hi, args..., multi::_); return;  // same type as ALL: no extra instantiation
